@@ -95,7 +95,9 @@ def node_crosscheck(check, pairs):
             continue
         rel = max(abs(gx - mx) / (1 + abs(gx)), abs(gy - my) / (1 + abs(gy)))
         worst = max(worst, rel)
-        if not rel <= 1e-11:
+        # 1e-9: V8's and libm's acos differ in the last place, which proj4js' spherical tmerc amplifies
+        # by ~1e5 next to the equator; a transliteration error shows at 1e-6 or more
+        if not rel <= 1e-9:
             bad += 1
     if bad:
         check.broken.append("Js.lean disagrees with the vendored proj4js run by node on %d of %d sampled first hops" % (bad, n))
